@@ -56,6 +56,7 @@ def function_table():
             "a / abs((0.01 + b) ** (-1/3))", "(a - b) / abs(c ** (-1/2))", "a / abs(b) ** -1", "a / (1 / abs(b))", "a / sqrt(b) ** -1", "a / abs(1 / b) - c / abs(b ** -2)", "k / exp(-a) / abs(b ** (-1/3))",
             # unevaluated constant multiples of pi; real parts introduced by sympy for functions that can be complex
             "sin((a - b) - pi * pi)", "sin(a + 2 * pi * pi)", "cos(a - pi * pi)", "sin(a + pi * pi * pi)", "tan(a / 4 - (b + pi * pi))", "sin(a - pi * 2 * 3)", "cos(a * pi * pi)", "sin(a + pi * 0.5 * 2)",
+            "log(abs(exp(sin(log(a - b / 4)))) + 0.5)", "abs(exp(cos(log(c - a)))) * b",
             "log(abs(exp(asin(a / 2))) + 0.5)", "abs(exp(acos(b / 2)))", "abs(exp(atan(a))) * b", "abs(exp(sqrt(c))) - abs(exp(log(a)))",
             "exp(a + (b + (1.5 + c)))", "log(a + (b + (1.5 + c)))", "sqrt(a + (b + (c + 2)))",
             "floor(a * 3) / 2", "floor(-a * 3)", "floor(a) + floor(b)", "a - floor(a)", "floor(a / b)", "abs(a - 2)", "abs(-a) * abs(b - 1)",
